@@ -27,7 +27,9 @@ KINDS = {
                             "script": [("c", [(0, 25)]), ("s", [(0, 35)])]}),
 }
 RELATIONS = ["different_hosts", "same_hosts_diff_cport", "same_client_two_servers", "same_server_443_44330", "v4_v6", "crossed_hosts",
-             "resumed_session", "port_in_two_roles", "tcp_to_quic_port", "v4_and_numerically_equal_v6"]
+             "resumed_session", "port_in_two_roles", "tcp_to_quic_port", "v4_and_numerically_equal_v6", "first_ends_inside_record"]
+# first_ends_inside_record: the capture stops while the first connection is in the middle of a record (its last data segment
+# holds only the first half of it) - whatever that leaves behind must not reach the other connection
 # v4_and_numerically_equal_v6: a.b.c.d:p -> e.f.g.h:443 next to [::a.b.c.d]:p -> [::e.f.g.h]:443 (same ports)
 # resumed_session: the second connection resumes the first (same master secret, abbreviated handshake, fresh randoms);
 # port_in_two_roles: the first connection is QUIC to a port outside the configured list and that number is the second
@@ -117,6 +119,10 @@ def make_flows(ka, kb, rel, cidrel, seed):
             conn = scen.quic_conn(scn, seed, key=("c04", idx))
             pk = scen.quic_packets(conn, conn_id=idx)
         specs.append(scen.Flow(kind, conn, ends, idx, pk))
+    if rel == "first_ends_inside_record":
+        f0 = specs[0]
+        last = [p for p in f0.pkts if p.payload][-1]
+        last.payload = last.payload[:max(6, len(last.payload) // 2)]
     if cidrel == "short_id_vs_zero_length" and all(f.kind == "quic" for f in specs):
         # connection 1's client uses a zero-length ID; connection 0's client uses the ONE-byte ID that equals the first
         # protected byte of one of connection 1's server->client 1-RTT packets (IDs are chosen freely, so this is legal)
@@ -154,6 +160,8 @@ def cases(tier, seed):
                 if ("ssl3_rc4" in (ka, kb) or "quic_bigpn" in (ka, kb)) and rel not in ("different_hosts", "resumed_session"):
                     continue
                 if rel == "crossed_hosts" and (ka != kb or ka in ("tls13", "quic_chacha", "quic_split")):
+                    continue
+                if rel == "first_ends_inside_record" and (KINDS[ka][0] != "tls" or "quic_split" in (ka, kb)):
                     continue
                 if rel == "v4_and_numerically_equal_v6" and "quic_split" in (ka, kb):
                     continue
